@@ -15,6 +15,9 @@ func init() {
 				Witnesses: []string{"upgraded", "stuffed-startup-ignored", "refused-then-plaintext", "cancel-after-upgrade", "repeated-sslrequest-inside-tls", "empty-config-on-field", "limit-enforced-inside-tls", "limit-enforced-after-refusal"}},
 			{Pkg: "wire", Entry: "VerifH12b", What: "CancelRequest after the SSL refusal closes without reply or callback",
 				Quick: map[string]int{}, Witnesses: []string{"cancel-after-ssl"}},
+			{Pkg: "wire", Entry: "VerifH11d", What: "differential: a session (startup, one message of symbolic type and body with a correct, too small or oversized declared length, a simple query, Terminate) served in plaintext and inside TLS by two equally configured servers gives the same transcript and the same callback trace",
+				Quick: map[string]int{"N": 3}, Thorough: map[string]int{"N": 5},
+				Witnesses: []string{"oversized-inside", "query-served-in-both"}},
 		},
 	})
 }
